@@ -46,6 +46,9 @@ Oth(d) == 3 - d
 Get(f, k, dflt) == IF k \in DOMAIN f THEN f[k] ELSE dflt
 Put(f, k, v) == IF k \in DOMAIN f THEN [f EXCEPT ![k] = v] ELSE f @@ (k :> v)
 Checked(p) == IOEnv.CHECK = "ALL" \/ p = IOEnv.CHECK \/ p = "TOOL"
+\* first condition that holds among those whose property is being checked: cs is a sequence of <<condition, property, reason>>
+First(cs) == LET idx == {i \in 1..Len(cs) : cs[i][1] /\ Checked(cs[i][2])} IN
+             IF idx = {} THEN <<>> ELSE LET i == CHOOSE i \in idx : \A j \in idx : i <= j IN <<cs[i][2], cs[i][3]>>
 Flag(p, why) == IF bad = <<>> /\ Checked(p) /\ PrintT("VIOLATION property=" \o p \o " line=" \o ToString(l) \o " reason=" \o why) THEN <<p, why, l>> ELSE bad
 
 NewStream == [sent |-> 0, granted |-> 0, grantedE |-> 0, arrived |-> 0, consumed |-> 0,
@@ -85,11 +88,10 @@ EmitPayload(d) ==
         s1 == [s EXCEPT !.sent = @ + W!DataCost(len),
                         !.wcur = IF h.last THEN <<>> ELSE (IF whole THEN cur \o Ev.b ELSE cur),
                         !.wopen = ~h.last, !.emptyP = 0]
-        why == IF k \notin DOMAIN st THEN <<"C08", "data frame for a port that was never opened">>
-               ELSE IF s.finE THEN <<"C11", "data frame after SendFinish">>
-               ELSE IF len > chunk THEN <<"C02", "data frame larger than the advertised chunk size">>
-               ELSE IF s1.sent - s1.granted > rbuf THEN <<"C02", "sent minus granted credit exceeds the advertised receive buffer">>
-               ELSE <<>> IN
+        why == First(<<<<k \notin DOMAIN st, "C08", "data frame for a port that was never opened">>,
+                   <<s.finE, "C11", "data frame after SendFinish">>,
+                   <<len > chunk, "C02", "data frame larger than the advertised chunk size">>,
+                   <<s1.sent - s1.granted > rbuf, "C02", "sent minus granted credit exceeds the advertised receive buffer">>>>) IN
     /\ st' = Put(st, k, s1)
     /\ hdrE' = [hdrE EXCEPT ![d] = None]
     /\ bad' = IF why = <<>> THEN bad ELSE Flag(why[1], why[2])
@@ -113,14 +115,13 @@ EmitMsg(d) ==
                 s1 == [s EXCEPT !.sent = @ + 4 * n, !.wopen = ~m.last, !.wcur = <<>>,
                                 !.emptyP = IF n = 0 THEN @ + 1 ELSE 0]
                 dup == \E i \in 1..n : <<d, m.ports[i]>> \in DOMAIN reqs /\ reqs[<<d, m.ports[i]>>].state = "open"
-                why == IF k \notin DOMAIN st THEN <<"C08", "port data for a port that was never opened">>
-                       ELSE IF s.finE THEN <<"C11", "port data after SendFinish">>
-                       ELSE IF 4 * n > cfg[Oth(d)].chunk THEN <<"C02", "port batch larger than the advertised chunk size">>
-                       ELSE IF s1.sent - s1.granted > cfg[Oth(d)].rbuf THEN <<"C02", "sent minus granted credit exceeds the advertised receive buffer">>
-                       ELSE IF s1.emptyP >= 3 THEN <<"C03", "port-open batch emits frames without making progress">>
-                       ELSE IF dup THEN <<"C10", "port number of a pending request reused in a new request">>
-                       ELSE IF m.hasIds # (cfg[Oth(d)].version >= W!VersionPortId) THEN <<"C09", "port ids sent to a peer of the wrong version">>
-                       ELSE <<>> IN
+                why == First(<<<<k \notin DOMAIN st, "C08", "port data for a port that was never opened">>,
+                   <<s.finE, "C11", "port data after SendFinish">>,
+                   <<4 * n > cfg[Oth(d)].chunk, "C02", "port batch larger than the advertised chunk size">>,
+                   <<s1.sent - s1.granted > cfg[Oth(d)].rbuf, "C02", "sent minus granted credit exceeds the advertised receive buffer">>,
+                   <<s1.emptyP >= 3, "C03", "port-open batch emits frames without making progress">>,
+                   <<dup, "C10", "port number of a pending request reused in a new request">>,
+                   <<m.hasIds # (cfg[Oth(d)].version >= W!VersionPortId), "C09", "port ids sent to a peer of the wrong version">>>>) IN
             /\ st' = Put(st, k, s1)
             /\ reqs' = [q \in DOMAIN reqs \cup {<<d, m.ports[i]>> : i \in 1..n} |->
                             IF \E i \in 1..n : q = <<d, m.ports[i]>> THEN [state |-> "open", via |-> "port"] ELSE reqs[q]]
@@ -131,30 +132,27 @@ EmitMsg(d) ==
                 s == Get(st, k, NewStream)
                 c == W!Val(m.credits)
                 s1 == [s EXCEPT !.grantedE = @ + c]
-                why == IF k \notin DOMAIN st THEN <<"C08", "credits for a port that was never opened">>
-                       ELSE IF s1.grantedE > s.arrived THEN <<"C02", "more credit granted than data received">>
-                       ELSE IF s.rfinE THEN <<"C11", "credits after ReceiveFinish">>
-                       ELSE <<>> IN
+                why == First(<<<<k \notin DOMAIN st, "C08", "credits for a port that was never opened">>,
+                   <<s1.grantedE > s.arrived, "C02", "more credit granted than data received">>,
+                   <<s.rfinE, "C11", "credits after ReceiveFinish">>>>) IN
             /\ st' = Put(st, k, s1)
             /\ bad' = IF why = <<>> THEN bad ELSE Flag(why[1], why[2])
             /\ UNCHANGED <<hdrE, pair, reqs>>
       [] m.k = "OpenPort" ->
             LET q == <<d, m.client>>
                 open == {r \in DOMAIN reqs : r[1] = d /\ reqs[r].state = "open" /\ reqs[r].via = "client"}
-                why == IF q \in DOMAIN reqs /\ reqs[q].state = "open" THEN <<"C10", "OpenPort for a port with a pending request">>
-                       ELSE IF <<d, m.client>> \in DOMAIN pair THEN <<"C07", "OpenPort reuses the number of an open port">>
-                       ELSE IF Cardinality(open) + 1 > cfg[Oth(d)].connect_q THEN <<"C10", "more unanswered client requests than the peer's connect queue">>
-                       ELSE IF m.hasId # (cfg[Oth(d)].version >= W!VersionPortId) THEN <<"C09", "port id sent to a peer of the wrong version">>
-                       ELSE <<>> IN
+                why == First(<<<<q \in DOMAIN reqs /\ reqs[q].state = "open", "C10", "OpenPort for a port with a pending request">>,
+                   <<<<d, m.client>> \in DOMAIN pair, "C07", "OpenPort reuses the number of an open port">>,
+                   <<Cardinality(open) + 1 > cfg[Oth(d)].connect_q, "C10", "more unanswered client requests than the peer's connect queue">>,
+                   <<m.hasId # (cfg[Oth(d)].version >= W!VersionPortId), "C09", "port id sent to a peer of the wrong version">>>>) IN
             /\ reqs' = Put(reqs, q, [state |-> "open", via |-> "client"])
             /\ bad' = IF why = <<>> THEN bad ELSE Flag(why[1], why[2])
             /\ UNCHANGED <<st, hdrE, pair>>
       [] m.k = "PortOpened" ->
             \* sent by the server endpoint d: its port m.server is paired with the client's port m.client
             LET q == <<Oth(d), m.client>>
-                why == IF ~(q \in DOMAIN reqs /\ reqs[q].state = "open") THEN <<"C10", "PortOpened without a pending request">>
-                       ELSE IF <<d, m.server>> \in DOMAIN pair THEN <<"C07", "server port number already in use by an open port">>
-                       ELSE <<>> IN
+                why == First(<<<<~(q \in DOMAIN reqs /\ reqs[q].state = "open"), "C10", "PortOpened without a pending request">>,
+                   <<<<d, m.server>> \in DOMAIN pair, "C07", "server port number already in use by an open port">>>>) IN
             /\ reqs' = Put(reqs, q, [state |-> "accepted", via |-> Get(reqs, q, [via |-> "client"]).via])
             /\ pair' = Put(Put(pair, <<d, m.server>>, m.client), <<Oth(d), m.client>>, m.server)
             /\ st' = Put(Put(st, <<d, m.client>>, NewStream), <<Oth(d), m.server>>, NewStream)
@@ -162,22 +160,22 @@ EmitMsg(d) ==
             /\ UNCHANGED hdrE
       [] m.k = "Rejected" ->
             LET q == <<Oth(d), m.client>>
-                why == IF ~(q \in DOMAIN reqs /\ reqs[q].state = "open") THEN <<"C10", "Rejected without a pending request">> ELSE <<>> IN
+                why == First(<<<<~(q \in DOMAIN reqs /\ reqs[q].state = "open"), "C10", "Rejected without a pending request">>>>) IN
             /\ reqs' = Put(reqs, q, [state |-> IF m.noPorts THEN "rejected_noports" ELSE "rejected", via |-> Get(reqs, q, [via |-> "client"]).via])
             /\ bad' = IF why = <<>> THEN bad ELSE Flag(why[1], why[2])
             /\ UNCHANGED <<st, hdrE, pair>>
       [] m.k = "SendFinish" ->
             LET k == <<d, m.port>>  s == Get(st, k, NewStream)
-                why == IF k \notin DOMAIN st THEN <<"C08", "SendFinish for a port that was never opened">>
-                       ELSE IF s.finE THEN <<"C11", "SendFinish sent twice">> ELSE <<>> IN
+                why == First(<<<<k \notin DOMAIN st, "C08", "SendFinish for a port that was never opened">>,
+                   <<s.finE, "C11", "SendFinish sent twice">>>>) IN
             /\ st' = Put(st, k, [s EXCEPT !.finE = TRUE])
             /\ bad' = IF why = <<>> THEN bad ELSE Flag(why[1], why[2])
             /\ UNCHANGED <<hdrE, pair, reqs>>
       [] m.k \in {"ReceiveClose", "ReceiveFinish"} ->
             LET k == CreditStream(d, m.port)  s == Get(st, k, NewStream)
-                why == IF k \notin DOMAIN st THEN <<"C08", "receiver close/finish for a port that was never opened">>
-                       ELSE IF m.k = "ReceiveClose" /\ (s.closeE \/ s.rfinE) THEN <<"C11", "ReceiveClose sent twice or after ReceiveFinish">>
-                       ELSE IF m.k = "ReceiveFinish" /\ s.rfinE THEN <<"C11", "ReceiveFinish sent twice">> ELSE <<>> IN
+                why == First(<<<<k \notin DOMAIN st, "C08", "receiver close/finish for a port that was never opened">>,
+                   <<m.k = "ReceiveClose" /\ (s.closeE \/ s.rfinE), "C11", "ReceiveClose sent twice or after ReceiveFinish">>,
+                   <<m.k = "ReceiveFinish" /\ s.rfinE, "C11", "ReceiveFinish sent twice">>>>) IN
             /\ st' = Put(st, k, IF m.k = "ReceiveClose" THEN [s EXCEPT !.closeE = TRUE] ELSE [s EXCEPT !.rfinE = TRUE])
             /\ bad' = IF why = <<>> THEN bad ELSE Flag(why[1], why[2])
             /\ UNCHANGED <<hdrE, pair, reqs>>
@@ -226,6 +224,13 @@ WireDeliver ==
             /\ bad' = bad
     /\ UNCHANGED <<cfg, hdrE, pair, ops, pend, reqs, poolKey, lastPool, ended, gone>>
 
+\* frames in flight were lost with the connection
+WireDrop ==
+    /\ Is("wire_drop")
+    /\ fly' = [fly EXCEPT ![Ev.dir] = <<>>]
+    /\ hdrD' = [hdrD EXCEPT ![Ev.dir] = None]
+    /\ UNCHANGED <<cfg, hdrE, pair, st, ops, pend, reqs, poolKey, lastPool, ended, gone, cnt, misc, bad>>
+
 \* ------------------------------------------------------------------ API
 SendKinds == {"send", "try_send", "send_chunks", "connect"}
 RecvKinds == {"recv_any", "recv_chunk"}
@@ -238,34 +243,33 @@ ApiStart ==
     /\ LET k == IF Ev.kind \in PortKinds THEN OpStream(Ev) ELSE <<>>
            s == Get(st, k, NewStream)
            o == IF Ev.kind \in SendKinds THEN Ev @@ [afterClose |-> s.closeP, afterRfin |-> s.rfinP] ELSE Ev IN
-       ops' = Put(ops, Ev.op, o)
+       ops' = Put(ops, Ev.op, o @@ [afterEnd |-> ended[Ev.ep] # "running"])
     /\ pend' = pend \cup {Ev.op}
     /\ UNCHANGED <<cfg, fly, hdrE, hdrD, pair, st, reqs, poolKey, lastPool, ended, gone, cnt, misc, bad>>
 
 \* result of a send-like call on stream k with observation record s
 SendVerdict(o, s) ==
-    IF Ev.res = "ok" THEN
-        IF o.afterRfin THEN <<"C11", "send succeeded although the receiver was already known to be dropped">>
-        ELSE IF o.afterClose THEN <<"C11", "send succeeded although the receiver was already known to be closed">>
-        ELSE <<>>
-    ELSE IF Ev.res = "err" THEN
-        IF Ev.err = "closed_graceful" /\ s.cls # "graceful" THEN <<"C11", "send failed as gracefully closed but the receiver was not closed gracefully">>
-        ELSE IF Ev.err = "closed_dropped" /\ s.cls # "dropped" THEN <<"C11", "send failed as dropped but the receiver was not dropped (or was closed gracefully first)">>
-        ELSE IF Ev.err = "chmux" /\ ~misc.faulted /\ ended[o.ep] = "running" THEN <<"C11", "send failed with a multiplexer error on a healthy connection">>
-        ELSE <<>>
-    ELSE <<>>
+    First(<<<<Ev.res = "ok" /\ o.afterRfin, "C11", "send succeeded although the receiver was already known to be dropped">>,
+            <<Ev.res = "ok" /\ o.afterClose, "C11", "send succeeded although the receiver was already known to be closed">>,
+            <<Ev.res = "err" /\ Ev.err = "closed_graceful" /\ s.cls # "graceful", "C11", "send failed as gracefully closed but the receiver was not closed gracefully">>,
+            <<Ev.res = "err" /\ Ev.err = "closed_dropped" /\ s.cls # "dropped", "C11", "send failed as dropped but the receiver was not dropped (or was closed gracefully first)">>,
+            <<Ev.res = "err" /\ Ev.err = "chmux" /\ ~misc.faulted /\ ended[o.ep] = "running", "C11", "send failed with a multiplexer error on a healthy connection">>,
+            <<Ev.res = "err" /\ Ev.err = "chmux" /\ ~misc.faulted /\ ended[o.ep] = "running", "C06", "send failed with a multiplexer error on a healthy connection">>>>)
 
 ApiDone ==
     /\ Is("api_done")
     /\ pend' = pend \ {Ev.op}
     /\ IF Ev.op \notin DOMAIN ops THEN UNCHANGED <<st, cnt, misc, bad>>
        ELSE LET o == ops[Ev.op] IN
-         IF o.kind \in SendKinds THEN
+         IF o.afterEnd /\ Ev.res = "ok" /\ o.kind \in SendKinds \cup {"client_connect", "accept", "req_accept"} THEN
+              /\ bad' = Flag("C06", "operation started after the dispatcher terminated completed successfully")
+              /\ UNCHANGED <<st, cnt, misc>>
+         ELSE IF o.kind \in SendKinds THEN
               LET k == OpStream(o)  s == Get(st, k, NewStream)
                   msg == IF o.kind = "connect" THEN [t |-> "ports", n |-> o.n] ELSE [t |-> "data", b |-> o.data]
                   commit == Ev.res = "ok" /\ ~(o.kind = "connect" /\ o.n = 0)
                   v == SendVerdict(o, s)
-                  why == IF k \notin DOMAIN st THEN <<"C10", "send on a port the wire never opened">> ELSE v IN
+                  why == IF k \notin DOMAIN st /\ Ev.res = "ok" /\ Checked("C10") THEN <<"C10", "send completed on a port the wire never opened">> ELSE v IN
               /\ st' = IF commit THEN Put(st, k, [s EXCEPT !.committed = Append(@, msg)]) ELSE st
               /\ bad' = IF why = <<>> THEN bad ELSE Flag(why[1], why[2])
               /\ UNCHANGED <<cnt, misc>>
@@ -279,11 +283,13 @@ ApiDone ==
                           [] Ev.res = "cancelled" -> [s EXCEPT !.rcur = <<>>, !.rchunk = FALSE]
                           [] Ev.res = "none" -> [s EXCEPT !.eos = TRUE]
                           [] OTHER -> s
-                  why == IF ~IsPrefix(s1.delivered, s1.committed) THEN <<"C01", "receiver obtained a message that is not the next completed send">>
-                         ELSE IF Ev.res = "none" /\ s1.delivered # s1.committed THEN <<"C11", "end of stream with completed sends missing">>
-                         ELSE IF Ev.res = "none" /\ ~s.finD THEN <<"C11", "end of stream although the sender was not dropped">>
-                         ELSE IF Ev.res = "err" /\ Ev.err = "chmux" /\ ~misc.faulted /\ ended[o.ep] = "running" THEN <<"C11", "receive failed with a multiplexer error on a healthy connection">>
-                         ELSE <<>> IN
+                  lostc == Ev.res = "err" /\ Ev.err = "chmux" /\ ~misc.faulted /\ ended[o.ep] = "running"
+                  why == First(<<<<~IsPrefix(s1.delivered, s1.committed), "C01", "receiver obtained a message that is not the next completed send">>,
+                                 <<lostc /\ s1.delivered # s1.committed, "C01", "completed send lost: the connection failed on a healthy transport">>,
+                                 <<Ev.res = "none" /\ s1.delivered # s1.committed, "C11", "end of stream with completed sends missing">>,
+                                 <<Ev.res = "none" /\ ~s.finD, "C11", "end of stream although the sender was not dropped">>,
+                                 <<lostc, "C11", "receive failed with a multiplexer error on a healthy connection">>,
+                                 <<lostc, "C06", "receive failed with a multiplexer error on a healthy connection">>>>) IN
               /\ st' = Put(st, k, s1)
               /\ bad' = IF why = <<>> THEN bad ELSE Flag(why[1], why[2])
               /\ UNCHANGED <<cnt, misc>>
@@ -296,22 +302,17 @@ ApiDone ==
               IF Ev.res = "ok" THEN
                    /\ misc' = [misc EXCEPT !.apiPairs = @ \cup {<<o.ep, Ev.local, Ev.remote>>}]
                    /\ cnt' = Inc(cnt, <<o.ep, "connOk">>)
-                   /\ bad' = IF Get(pair, <<o.ep, Ev.local>>, <<>>) # Ev.remote THEN Flag("C10", "connect returned a port pair that the wire did not pair")
-                             ELSE IF Get(cnt, <<o.ep, "connOk">>, 0) + 1 > Get(cnt, <<o.ep, "opened">>, 0) THEN Flag("C10", "more accepted connects than PortOpened frames received")
-                             ELSE bad
+                   /\ bad' = (IF Get(pair, <<o.ep, Ev.local>>, <<>>) # Ev.remote THEN Flag("C10", "connect returned a port pair that the wire did not pair")
+                              ELSE IF Get(cnt, <<o.ep, "connOk">>, 0) + 1 > Get(cnt, <<o.ep, "opened">>, 0) THEN Flag("C10", "more accepted connects than PortOpened frames received")
+                              ELSE bad)
                    /\ UNCHANGED st
               ELSE IF Ev.res = "err" THEN
                    LET name == IF Ev.err = "rejected" THEN "connRej" ELSE IF Ev.err = "remote_ports" THEN "connRNP" ELSE "connOther"
                        c1 == Inc(cnt, <<o.ep, name>>)
-                       why == IF Ev.err = "rejected" /\ o.ep \notin misc.lfin /\ c1[<<o.ep, name>>] > Get(cnt, <<o.ep, "rej">>, 0)
-                                 THEN <<"C10", "connect refused as rejected without a matching Rejected frame or dropped listener">>
-                              ELSE IF Ev.err = "remote_ports" /\ c1[<<o.ep, name>>] > Get(cnt, <<o.ep, "rejNP">>, 0)
-                                 THEN <<"C10", "connect refused for exhausted remote ports without a matching Rejected frame">>
-                              ELSE IF Ev.err = "chmux" /\ ~misc.faulted /\ ended[o.ep] = "running"
-                                 THEN <<"C10", "connect failed with a multiplexer error on a healthy connection">>
-                              ELSE IF Ev.err \in {"local_ports", "too_many"} /\ o.wait
-                                 THEN <<"C10", "waiting connect refused for a local resource limit">>
-                              ELSE <<>> IN
+                       why == First(<<<<Ev.err = "rejected" /\ o.ep \notin misc.lfin /\ c1[<<o.ep, name>>] > Get(cnt, <<o.ep, "rej">>, 0), "C10", "connect refused as rejected without a matching Rejected frame or dropped listener">>,
+                   <<Ev.err = "remote_ports" /\ c1[<<o.ep, name>>] > Get(cnt, <<o.ep, "rejNP">>, 0), "C10", "connect refused for exhausted remote ports without a matching Rejected frame">>,
+                   <<Ev.err = "chmux" /\ ~misc.faulted /\ ended[o.ep] = "running", "C10", "connect failed with a multiplexer error on a healthy connection">>,
+                   <<Ev.err \in {"local_ports", "too_many"} /\ o.wait, "C10", "waiting connect refused for a local resource limit">>>>) IN
                    /\ cnt' = c1
                    /\ bad' = (IF why = <<>> THEN bad ELSE Flag(why[1], why[2]))
                    /\ UNCHANGED <<st, misc>>
@@ -348,18 +349,24 @@ Quiescent ==
            lost == {k \in DOMAIN st : Waiting(k) /\ st[k].delivered # st[k].committed}
            leak == {k \in DOMAIN st : ~Sending(k) /\ PoolOf(k) >= 0 /\ ~st[k].closeE /\ ~st[k].rfinE
                                       /\ PoolOf(k) # cfg[Oth(k[1])].rbuf - (st[k].sent - st[k].granted)}
+           \* receiver side: every credit amount the returner decided to return has reached the wire
+           rleak == {k \in DOMAIN st : ~st[k].rfinE /\ <<Oth(k[1]), k[2], "mon">> \in DOMAIN poolKey
+                                       /\ Get(lastPool, poolKey[<<Oth(k[1]), k[2], "mon">>], 0) # st[k].grantedE}
            noeos == {k \in DOMAIN st : Waiting(k) /\ st[k].finD}
            noclosed == {k \in DOMAIN st : WatchingClosed(k) /\ (st[k].closeD \/ st[k].rfinD)}
            deadsend == {k \in DOMAIN st : Sending(k) /\ (st[k].closeD \/ st[k].rfinD)}
-           why == IF fly # <<<<>>, <<>>>> THEN <<"TOOL", "frames in flight at quiescence">>
-                  ELSE IF stuck # {} THEN <<"C03", "operation still pending although the receiver has consumed everything">>
-                  ELSE IF lost # {} THEN <<"C01", "completed send not delivered although the receiver keeps receiving">>
-                  ELSE IF leak # {} THEN <<"C03", "credit leak: sender pool differs from buffer minus outstanding bytes">>
-                  ELSE IF noeos # {} THEN <<"C11", "receiver still waiting although the sender's finish was delivered">>
-                  ELSE IF noclosed # {} THEN <<"C11", "closed() still pending although the receiver's close/finish was delivered">>
-                  ELSE IF deadsend # {} THEN <<"C11", "send still pending although the receiver's close/finish was delivered">>
-                  ELSE IF ~PairsOK THEN <<"C10", "accepted port pair differs from the pairing on the wire">>
-                  ELSE <<>> IN
+           settled == Has("settled") /\ Ev.settled
+           live == ~misc.faulted /\ ~Has("late")     \* liveness verdicts apply (healthy transport, main quiescence point)
+           why == First(<<<<settled /\ pend # {}, "C06", "operation still pending after the transport failed and the timeout elapsed">>,
+                          <<live /\ fly # <<<<>>, <<>>>>, "TOOL", "frames in flight at quiescence">>,
+                          <<live /\ stuck # {}, "C03", "operation still pending although the receiver has consumed everything">>,
+                          <<live /\ lost # {}, "C01", "completed send not delivered although the receiver keeps receiving">>,
+                          <<live /\ leak # {}, "C03", "credit leak: sender pool differs from buffer minus outstanding bytes">>,
+                          <<live /\ rleak # {}, "C03", "credit leak: credit the receiver decided to return never reached the wire">>,
+                          <<live /\ noeos # {}, "C11", "receiver still waiting although the sender's finish was delivered">>,
+                          <<live /\ noclosed # {}, "C11", "closed() still pending although the receiver's close/finish was delivered">>,
+                          <<live /\ deadsend # {}, "C11", "send still pending although the receiver's close/finish was delivered">>,
+                          <<live /\ ~PairsOK, "C10", "accepted port pair differs from the pairing on the wire">>>>) IN
        bad' = IF why = <<>> THEN bad ELSE Flag(why[1], why[2])
     /\ UNCHANGED <<cfg, fly, hdrE, hdrD, pair, st, ops, pend, reqs, poolKey, lastPool, ended, gone, cnt, misc>>
 
@@ -384,10 +391,15 @@ Fault ==
 RunEnd ==
     /\ Is("run_end")
     /\ ended' = [ended EXCEPT ![Ev.ep] = Ev.res]
-    /\ bad' = IF Ev.res = "panic" THEN Flag("C08", "dispatcher panicked")
-              ELSE IF misc.allDropped /\ ~misc.faulted /\ Ev.res # "ok" THEN Flag("C07", "dispatcher did not finish successfully after everything was dropped")
-              ELSE IF ~misc.faulted /\ Ev.res \notin {"ok", "running"} THEN Flag("C06", "dispatcher failed on a healthy transport")
-              ELSE bad
+    /\ LET healthyFail == ~misc.faulted /\ Ev.res \notin {"ok", "running"}
+           why == First(<<<<Ev.res = "panic", "C08", "dispatcher panicked">>,
+                          <<misc.allDropped /\ ~misc.faulted /\ Ev.res # "ok", "C07", "dispatcher did not finish successfully after everything was dropped">>,
+                          <<healthyFail, "C06", "dispatcher failed on a healthy transport">>,
+                          <<healthyFail /\ Ev.res = "protocol", "C02", "dispatcher ended with a protocol error between two unmodified endpoints">>,
+                          <<healthyFail /\ Ev.res = "protocol", "C10", "dispatcher ended with a protocol error between two unmodified endpoints">>,
+                          <<healthyFail /\ Ev.res = "protocol", "C11", "dispatcher ended with a protocol error between two unmodified endpoints">>,
+                          <<misc.faulted /\ Ev.res = "running", "C06", "dispatcher still running after the transport failed and the timeout elapsed">>>>) IN
+       bad' = IF why = <<>> THEN bad ELSE Flag(why[1], why[2])
     /\ UNCHANGED <<cfg, fly, hdrE, hdrD, pair, st, ops, pend, reqs, poolKey, lastPool, gone, cnt, misc>>
 
 AllocCheck ==
@@ -398,9 +410,10 @@ AllocCheck ==
 Tasks ==
     /\ Is("tasks")
     /\ LET open == {q \in DOMAIN reqs : reqs[q].state = "open"} IN
-       bad' = IF Ev.alive # 0 THEN Flag("C07", "background tasks left behind after shutdown")
-              ELSE IF open # {} /\ ~misc.faulted THEN Flag("C10", "port-open request never resolved on the wire")
-              ELSE bad
+       LET why == First(<<<<Ev.alive # 0, "C07", "background tasks left behind after shutdown">>,
+                          <<Ev.alive # 0, "C06", "background tasks left behind after shutdown">>,
+                          <<open # {} /\ ~misc.faulted, "C10", "port-open request never resolved on the wire">>>>) IN
+       bad' = IF why = <<>> THEN bad ELSE Flag(why[1], why[2])
     /\ UNCHANGED <<cfg, fly, hdrE, hdrD, pair, st, ops, pend, reqs, poolKey, lastPool, ended, gone, cnt, misc>>
 
 \* H2: the dispatcher processed a ReceiveClose / ReceiveFinish for its local port (sender side learns of it)
@@ -419,18 +432,19 @@ HPortFree ==
     /\ LET e == Ev.who  p == Ev.local
            kOut == <<e, Get(pair, <<e, p>>, <<>>)>>  kIn == <<Oth(e), p>>
            known == \E t \in misc.apiPairs : t[1] = e /\ t[2] = p
-           why == IF kOut \notin DOMAIN st \/ kIn \notin DOMAIN st THEN <<>>
-                  ELSE IF ~(st[kIn].finD /\ st[kOut].rfinD) THEN <<"C07", "port freed before the peer finished both directions">>
-                  ELSE IF known /\ ~(<<e, "sender", p>> \in gone /\ <<e, "receiver", p>> \in gone) THEN <<"C07", "port freed while a local handle is still alive">>
-                  ELSE <<>> IN
+           both == kOut \in DOMAIN st /\ kIn \in DOMAIN st
+           sIn == Get(st, kIn, NewStream)  sOut == Get(st, kOut, NewStream)
+           why == First(<<<<both /\ ~(sIn.finD /\ sOut.rfinD), "C07", "port freed before the peer finished both directions">>,
+                          <<both /\ known /\ ~(<<e, "sender", p>> \in gone /\ <<e, "receiver", p>> \in gone), "C07", "port freed while a local handle is still alive">>>>) IN
        bad' = IF why = <<>> THEN bad ELSE Flag(why[1], why[2])
     /\ UNCHANGED <<cfg, fly, hdrE, hdrD, pair, st, ops, pend, reqs, poolKey, lastPool, ended, gone, cnt, misc>>
 
 \* ------------------------------------------------------------------ H2 hooks: sender credit pool
 HPortCreate ==
     /\ Is("h_port_create")
-    /\ poolKey' = Put(poolKey, <<Ev.who, Ev.local>>, Ev.pool_key)
-    /\ lastPool' = Put(lastPool, Ev.pool_key, IF Ev.who \in {1, 2} /\ cfg # <<>> THEN cfg[Oth(Ev.who)].rbuf ELSE 0)
+    /\ poolKey' = Put(Put(poolKey, <<Ev.who, Ev.local>>, Ev.pool_key), <<Ev.who, Ev.local, "mon">>, Ev.mon_key)
+    \* lastPool[pool key] = pool size last reported; lastPool[monitor key] = sum of credits the returner decided to return
+    /\ lastPool' = Put(Put(lastPool, Ev.pool_key, IF Ev.who \in {1, 2} /\ cfg # <<>> THEN cfg[Oth(Ev.who)].rbuf ELSE 0), Ev.mon_key, 0)
     /\ UNCHANGED <<cfg, fly, hdrE, hdrD, pair, st, ops, pend, reqs, ended, gone, bad, cnt, misc>>
 
 HPool ==
@@ -438,14 +452,19 @@ HPool ==
     /\ lastPool' = Put(lastPool, Ev.key, Ev.pool)
     /\ UNCHANGED <<cfg, fly, hdrE, hdrD, pair, st, ops, pend, reqs, poolKey, ended, gone, bad, cnt, misc>>
 
+HConsume ==
+    /\ Is("h_credit_consume")
+    /\ lastPool' = Put(lastPool, Ev.key, Get(lastPool, Ev.key, 0) + Ev.ret)
+    /\ UNCHANGED <<cfg, fly, hdrE, hdrD, pair, st, ops, pend, reqs, poolKey, ended, gone, cnt, misc, bad>>
+
 Known == {"reset", "wire_emit", "wire_deliver", "api_start", "api_done", "api_cancel", "api_panic", "quiescent", "livelock",
-          "drop", "run_end", "h_port_create", "h_credit_grant", "h_credit_drop", "h_credit_provide",
-          "all_dropped", "fault", "alloc_check", "tasks", "h_mux_rx_receive_close", "h_mux_rx_receive_finish", "h_port_free"}
+          "drop", "run_end", "h_port_create", "h_credit_grant", "h_credit_drop", "h_credit_provide", "h_credit_consume",
+          "all_dropped", "fault", "wire_drop", "alloc_check", "tasks", "h_mux_rx_receive_close", "h_mux_rx_receive_finish", "h_port_free"}
 Skip == /\ l <= Len(Rec) /\ Ev.ev \notin Known /\ l' = l + 1
         /\ UNCHANGED <<cfg, fly, hdrE, hdrD, pair, st, ops, pend, reqs, poolKey, lastPool, ended, gone, bad, cnt, misc>>
 
 Next == Reset \/ WireEmit \/ WireDeliver \/ ApiStart \/ ApiDone \/ ApiCancel \/ ApiPanic \/ Quiescent \/ Livelock
-        \/ Drop \/ RunEnd \/ HPortCreate \/ HPool \/ Skip \/ AllDropped \/ Fault \/ AllocCheck \/ Tasks \/ HRxClose \/ HPortFree
+        \/ Drop \/ RunEnd \/ HPortCreate \/ HPool \/ Skip \/ AllDropped \/ Fault \/ WireDrop \/ AllocCheck \/ Tasks \/ HRxClose \/ HPortFree \/ HConsume
 Spec == Init /\ [][Next]_vars
 
 \* ------------------------------------------------------------------ properties evaluated at every step
